@@ -419,6 +419,19 @@ func (h *c01Hist) burst(ups []*c01Peer) {
 			}
 		}(p.sp, msgs)
 	}
+	// in a third of the bursts a peer that is not sending loses its session while the burst is propagated to it
+	// (peer-down handling racing with propagation towards that peer); it comes back through a later "up" event
+	if len(ups) > nsp+1 && r.IntN(3) == 0 {
+		t := ups[perm[nsp+r.IntN(len(ups)-nsp)]]
+		t.sp.close()
+		t.up = false
+		t.ann = map[string]map[uint32]bool{}
+		if h.adjIn != nil {
+			delete(h.adjIn, t.spec.Addr)
+		}
+		h.events["flap-during-burst"]++
+		h.logf("close %s (during the burst)", t.spec.Addr)
+	}
 	wg.Wait()
 	h.events["burst"]++
 }
@@ -740,7 +753,7 @@ func (h *c01Hist) witness(tag string) map[string]any {
 func TestVerifC01(t *testing.T) {
 	rec := vlib.Open("C01")
 	defer rec.Close()
-	total := vlib.Scale(2400, 48000)
+	total := vlib.Scale(7200, 72000)
 	vlib.Cases(total, func(idx int) {
 		rec.Mark(fmt.Sprintf("c01 history %d", idx), true)
 		synctest.Test(t, func(t *testing.T) { c01History(t, rec, idx) })
